@@ -163,6 +163,15 @@ def attach(owner: Any, name: str, *, hook: str, rec: Recorder,
     is_static = isinstance(raw, staticmethod)
     is_class = isinstance(raw, classmethod)
     func = raw.__func__ if (is_static or is_class) else raw
+    if isinstance(owner, type) and not (is_static or is_class) and not callable(raw) and hasattr(raw, "__get__"):
+        # descriptor that is not itself callable (functools.singledispatchmethod): bind it per call
+        descriptor = raw
+
+        def func(self, *args, **kwargs):  # noqa: F811
+            return descriptor.__get__(self, type(self))(*args, **kwargs)
+        func.__name__ = name
+        func.__qualname__ = f"{owner.__name__}.{name}"
+        func.__doc__ = getattr(descriptor, "__doc__", None)
 
     @functools.wraps(func)
     def wrapper(*args, **kwargs):
